@@ -30,6 +30,9 @@ Proof.
   - intros a o b ta tb Ha IHa Hb IHb. simpl. constructor; assumption.
 Qed.
 
+Lemma T_no_then : (forall x t, TI x t -> no_then t = true) /\ (forall g t, T g t -> no_then t = true).
+Proof. apply TI_T_ind; intros; simpl; auto. destruct o; simpl; now rewrite H, H0. Qed.
+
 Lemma T_nonempty g t : T g t -> g <> [].
 Proof. intros H; inversion H; discriminate. Qed.
 
